@@ -62,37 +62,30 @@ def commaNats (xs : List Nat) : String := ",".intercalate (xs.map toString)
 
 /-- Python `get` of every linked variable through the (cached) accessors, in index order; `none` if one raises -/
 def readAllC (vars : List Linked) (data : List UInt8) (caches : List PvCache) : Option (List Int) :=
-  let rec go (i : Nat) (fuel : Nat) (caches : List PvCache) (acc : List Int) : Option (List Int) :=
-    match fuel with
-    | 0 => some acc.reverse
-    | fuel + 1 =>
-      match getterStart bindNew vars caches i with
-      | .ok (l, s, caches') => go (i + 1) fuel caches' (pyReadAt l.var.size data s :: acc)
-      | .error _ => none
-  go 0 vars.length caches []
+  (readEach vars data (List.range vars.length) caches []).1
 
 def showReads : Option (List Int) → String
   | some vs => commaInts vs
   | none => "-"
 
-/-- the accessors an earlier sync group left on the objects: its layout (`assign` per variable), one cycle of the
-statements of its devices on its frame with all DeviceVars zero -/
-def priorCaches (j : Json) (vars : List Linked) (fresh : List PvCache) (ndv : Nat) : Option (List PvCache) :=
-  match field j "prior" with
-  | none => some fresh
+/-- earlier starts (`key` = "prior": cycles of a slow group — an earlier group of some of the devices, or the same group
+under the configuration of that time; "fprior": Python reads in the fast group): layout (`assign` per variable), frame,
+statements; all DeviceVars zero -/
+def earlierOf (j : Json) (key : String) (reads : Bool) (vars : List Linked) (ndv : Nat) : Option (List Earlier) :=
+  match field j key with
+  | none => some []
   | some p => do
-    if p.isNull then pure fresh else
-    let assigns ← (← fArr p "assign").mapM fun a => do
-      if a.isNull then pure (Assign.mk none none) else
-      match ← jArr a with
-      | [x, y] => pure (Assign.mk x.getNat?.toOption y.getNat?.toOption)
-      | _ => none
-    let ops ← (← fArr p "ops").mapM opOf
-    let frame ← fBytes p "frame"
-    let vars' := (vars.zip assigns).map fun (l, a) => { l with assign := a }
-    match pyRunC vars' ⟨⟨frame, List.replicate ndv 0⟩, fresh⟩ ops with
-    | .ok cs => pure cs.caches
-    | .error (_, caches) => pure caches      -- the cycle ended with an exception; the bindings made so far stay
+    if p.isNull then pure [] else
+    (← jArr p).mapM fun e => do
+      let assigns ← (← fArr e "assign").mapM fun a => do
+        if a.isNull then pure (Assign.mk none none) else
+        match ← jArr a with
+        | [x, y] => pure (Assign.mk x.getNat?.toOption y.getNat?.toOption)
+        | _ => none
+      let ops ← (← fArr e "ops").mapM opOf
+      let frame ← fBytes e "frame"
+      let vars' := (vars.zip assigns).map fun (l, a) => { l with assign := a }
+      pure { vars := vars', st := ⟨frame, List.replicate ndv 0⟩, ops := ops, reads := reads }
 
 def step (j : Json) : Option String := do
   let data ← fBytes j "frame"
@@ -109,9 +102,10 @@ def step (j : Json) : Option String := do
     match vars.mapM (fun l => start l.assign l.var), vars.mapM (fun l => progAddr l.assign l.var) with
     | some ss, some as =>
       let fresh := List.replicate vars.length PvCache.empty
-      match priorCaches j vars fresh dvs.length with
-      | none => pure "prior-error"
-      | some caches =>
+      match earlierOf j "prior" false vars dvs.length, earlierOf j "fprior" true vars dvs.length with
+      | none, _ | _, none => pure "prior-error"
+      | some hist, some fhist =>
+        let caches := historyCaches fresh hist
         -- the Python path as the code runs it (accessors cached on the PacketVar objects)
         let py := pyRunC vars ⟨⟨data, dvs.map (·.2)⟩, caches⟩ ops
         let pr := progRun vars ⟨hdr ++ data, dvs.map fun (f, v) => (f, encLE f.width (ofSigned f.width v))⟩ ops
@@ -123,8 +117,8 @@ def step (j : Json) : Option String := do
             | .error (.structError, _) => "py=struct-error pyv=- reads=-"
             | .error (.assertion, _) => "py=assertion-error pyv=- reads=-"
             | .error (.badIndex, _) => "py=bad-index pyv=- reads=-"
-          -- what Python's get sees in the frame that came back from the program (fast_update; fresh objects)
-          let back := readAllC vars (p.frame.drop hdr.length) fresh
+          -- what Python's get sees in the frame that came back from the program (fast_update; the fast group has objects of its own)
+          let back := readAllC vars (p.frame.drop hdr.length) (historyCaches fresh fhist)
           pure (s!"starts={commaNats ss} addrs={commaNats as} " ++ pyS ++
                 s!" prog={hexOfBytes p.frame} progv={commaInts (p.dvs.map fun (f, mem) => pyGet f mem 0)} reads={showReads back}")
     | _, _ => pure "key-error"
